@@ -42,6 +42,7 @@ from workflows.runtime.types.plugin import (
     WaitResultTick,
 )
 from workflows.runtime.types.ticks import (
+    TickIdleCheck,
     TickIdleRelease,
     WorkflowTick,
     WorkflowTickAdapter,
@@ -79,6 +80,16 @@ class _DBOSIdleReleaseInternalRunAdapter(BaseInternalRunAdapterDecorator):
         if isinstance(result, WaitResultTick):
             self._runtime._cancel_deferred_release(self.run_id)
         return result
+
+    @override
+    async def on_tick(self, tick: WorkflowTick) -> None:
+        # Internally scheduled work (a retry after its back-off, a waiter
+        # timeout) does not arrive through wait_receive: a run that starts
+        # working again on its own is no longer idle either. The timer is
+        # re-armed by the next idle announcement.
+        if not isinstance(tick, (TickIdleCheck, TickIdleRelease)):
+            self._runtime._cancel_deferred_release(self.run_id)
+        await super().on_tick(tick)
 
     @override
     async def write_to_event_stream(self, event: Event) -> None:
